@@ -18,6 +18,7 @@ import (
 	"bytes"
 	"encoding/json"
 	"fmt"
+	"io"
 	"math/rand"
 	"os"
 	"os/exec"
@@ -30,8 +31,10 @@ import (
 	"syscall"
 	"time"
 
+	"github.com/lugu/qiloop/bus/net"
 	"github.com/lugu/qiloop/meta/idl"
 	"github.com/lugu/qiloop/meta/signature"
+	"github.com/lugu/qiloop/type/value"
 	"verif/harness/hlib"
 )
 
@@ -220,6 +223,34 @@ func cmdC07(args []string) {
 			add(c07Case{Dec: "value", In: cat(le32(len(in)), in), Origin: "sigtext-soup"})
 		case 3:
 			add(c07Case{Dec: "idlparse", In: in, Origin: "text-soup"})
+		}
+	}
+	// Error messages whose payload is any dynamic value of the universe (and soup): the two diagnostic
+	// paths that decode the payload of an error message
+	emN := 0
+	for i := range vf.M {
+		m := &vf.M[i]
+		if emN >= 400 && !thorough {
+			break
+		}
+		payload := cat(toBytes(m.Vprefix), toBytes(m.Enc))
+		add(c07Case{Dec: "errmsg-write-fault", In: payload, Origin: "error-payload"})
+		add(c07Case{Dec: "errmsg-no-handler", In: payload, Origin: "error-payload"})
+		emN++
+		// a reader that stalls (0, nil) after a strict prefix of the value
+		if len(payload) > 2 {
+			add(c07Case{Dec: "stall", In: payload[:len(payload)/2], Origin: "stalling-reader"})
+			if m.T.K != "r" && len(m.Enc) > 1 {
+				add(c07Case{Dec: "stall", Sig: str(m.Sig), In: toBytes(m.Enc)[:len(m.Enc)/2], Origin: "stalling-reader"})
+			}
+		}
+	}
+	for i := range vf.F {
+		fb := toBytes(vf.F[i].Bytes)
+		for _, k := range []int{0, 10, 28, len(fb) - 1} {
+			if k >= 0 && k < len(fb) {
+				add(c07Case{Dec: "stall", Sig: "message", In: fb[:k], Origin: "stalling-reader"})
+			}
 		}
 	}
 	// texts one token away from a valid signature (Signature.tla's near-miss set): the parser must
@@ -491,6 +522,25 @@ var (
 	selftestCounter int
 )
 
+type failingWriter struct{}
+
+func (failingWriter) Write(p []byte) (int, error) { return 0, fmt.Errorf("write fault injected by the harness") }
+
+// stallReader serves its data, then reports (0, nil) on every call.
+type stallReader struct {
+	data []byte
+	pos  int
+}
+
+func (r *stallReader) Read(p []byte) (int, error) {
+	if r.pos >= len(r.data) {
+		return 0, nil
+	}
+	n := copy(p, r.data[r.pos:])
+	r.pos += n
+	return n, nil
+}
+
 func c07Decoder(c *c07Case) (func() error, error) {
 	in := c.In
 	switch c.Dec {
@@ -540,6 +590,58 @@ func c07Decoder(c *c07Case) (func() error, error) {
 			}, nil
 		}
 		return nil, fmt.Errorf("unknown selftest %q", c.Origin)
+	case "errmsg-write-fault":
+		// the bytes as the payload of an Error message whose write fails: Message.Write decodes the
+		// payload for its diagnostic (readError)
+		return func() error {
+			hdr := net.NewHeader(net.Error, 1, 1, 100, 7)
+			m := net.NewMessage(hdr, in)
+			err := m.Write(failingWriter{})
+			if err == nil {
+				return fmt.Errorf("write into a failing writer succeeded")
+			}
+			return nil
+		}, nil
+	case "errmsg-no-handler":
+		// the same message arriving at an end point where nobody takes it: process() decodes the payload
+		// for its log line - in the reader goroutine, where a panic kills the process; a call sent
+		// afterwards must still be delivered
+		return func() error {
+			a, b := net.Pipe()
+			defer a.Close()
+			defer b.Close()
+			q := make(chan *net.Message, 4)
+			b.MakeHandler(func(h *net.Header) (bool, bool) { return h.Type == net.Call, true }, q, nil)
+			if err := a.Send(net.NewMessage(net.NewHeader(net.Error, 1, 1, 100, 7), in)); err != nil {
+				return nil
+			}
+			if err := a.Send(net.NewMessage(net.NewHeader(net.Call, 1, 1, 100, 9), []byte{1})); err != nil {
+				return nil
+			}
+			select {
+			case <-q:
+				return nil
+			case <-time.After(4 * time.Second):
+				return fmt.Errorf("the end point stopped dispatching after an error message it could not attribute")
+			}
+		}, nil
+	case "stall":
+		// the decoder of c.Sig / the dynamic value decoder over a reader that serves the bytes and then
+		// returns (0, nil) for ever (io.Reader discourages it but allows it): an error, not a spin
+		var f func(r io.Reader) error
+		if c.Sig == "" {
+			f = func(r io.Reader) error { _, err := value.NewValue(r); return err }
+		} else if c.Sig == "message" {
+			f = func(r io.Reader) error { var m net.Message; return m.Read(r) }
+		} else {
+			t, err := signature.Parse(c.Sig)
+			if err != nil {
+				return nil, err
+			}
+			rd := t.Reader()
+			f = func(r io.Reader) error { _, err := rd.Read(r); return err }
+		}
+		return func() error { return f(&stallReader{data: in}) }, nil
 	case "sigparse":
 		return func() error { _, err := signature.Parse(string(in)); return err }, nil
 	case "idlparse":
